@@ -17,8 +17,13 @@ type riskFacts struct {
 	// (e.g. `product { ... on Node { ... on User @defer { … } } }`)
 	ImpossibleBranch bool
 	// a composite field at one response position (path of response keys) is selected in two
-	// different defer scopes (scope = innermost active @defer, or none)
+	// different DEFER scopes (scope = innermost active @defer): two sibling defers, or a defer and
+	// a defer nested in it
 	CompositeInSeveralScopes bool
+	// a composite field at one response position is selected inside an active @defer and also
+	// outside every @defer (in the initial selection): the fragment's fields below it are
+	// mounted under an object the initial response already delivers
+	CompositeDeferredAndNot bool
 	// an active @defer has no leaf field of its own: every leaf it selects directly (not through
 	// a nested @defer; __typename not counted, it belongs to the enclosing object) is also
 	// selected at the same response position in another scope
@@ -39,12 +44,14 @@ type riskFacts struct {
 }
 
 func (f riskFacts) any() bool {
-	return f.ImpossibleBranch || f.CompositeInSeveralScopes || f.DeferWithoutOwnFields || f.DeferredRequires || f.ListBelowNarrowedField || f.AbstractInAbstractWithDefer
+	// only the shapes of OPEN findings steer (C10-F3, F4, F8); the others are kept as facts
+	return f.CompositeInSeveralScopes || f.DeferredRequires || f.AbstractInAbstractWithDefer
 }
 
 func (f riskFacts) addTo(m map[string]string) {
 	m["defer_in_impossible_type_branch"] = fmt.Sprint(f.ImpossibleBranch)
 	m["composite_field_in_several_defer_scopes"] = fmt.Sprint(f.CompositeInSeveralScopes)
+	m["composite_field_deferred_and_not_deferred"] = fmt.Sprint(f.CompositeDeferredAndNot)
 	m["defer_without_own_fields"] = fmt.Sprint(f.DeferWithoutOwnFields)
 	m["deferred_requires_field"] = fmt.Sprint(f.DeferredRequires)
 	m["defer_below_list_below_narrowed_field"] = fmt.Sprint(f.ListBelowNarrowedField)
@@ -266,7 +273,20 @@ func analyseRisk(l *fed.Layout, doc *gen.Doc, vars map[string]any) riskFacts {
 				w.facts.LeafInSeveralScopes = true
 			} else {
 				// a composite, or __typename (which follows its object)
-				w.facts.CompositeInSeveralScopes = w.facts.CompositeInSeveralScopes || !isTypenameKey(key)
+				if !isTypenameKey(key) {
+					deferScopes := 0
+					for sc := range scopes {
+						if sc != 0 {
+							deferScopes++
+						}
+					}
+					if deferScopes >= 2 {
+						w.facts.CompositeInSeveralScopes = true
+					}
+					if scopes[0] && deferScopes >= 1 {
+						w.facts.CompositeDeferredAndNot = true
+					}
+				}
 			}
 			continue
 		}
